@@ -1,7 +1,7 @@
 """Shared extraction helpers built on mirtab: program context, layout tables,
 scancode automata, footprint scans."""
 import itertools, time
-from .mirtab import (Program, Engine, Undecided, atoms_in, ev, term_str, check_partition,
+from .mirtab import (INT_TYPES as INT_TYPES_, Program, Engine, Undecided, atoms_in, ev, term_str, check_partition,
                      is_scalar, C)
 
 KL_TRAIT = 'KeyboardLayout'
@@ -334,14 +334,47 @@ class ScanTable:
                 raise Undecided('decoder state field is not a plain input')
             self.state_atoms.append(v[1])
             self.state_tks.append(v[2])
-        for n in self.state_atoms + ['code']:
-            if eng.full_doms.get(n) is None:
-                raise Undecided('decoder state field %s has an unbounded domain' % n)
-        self.full = {n: eng.full_doms[n] for n in self.state_atoms + ['code']}
+        self.full = {n: eng.full_doms.get(n) for n in self.state_atoms + ['code']}
         for lf in self.leaves:
             for n in lf.doms:
                 if n not in self.full:
                     raise Undecided('%s depends on input other than (decoder state, byte): %s' % (fn_path, n))
+        # Fields that only OBSERVE the decoding (a byte counter, the last byte seen, ...) are not part of the decoder's state:
+        # a field is relevant iff some path class is selected by it, or a result mentions it, or the next value of a relevant
+        # field mentions it (least fixpoint).  Everything else is projected away - exactly, since by construction it can
+        # influence neither a result nor a relevant field.
+        nall = len(self.state_atoms)
+        rel = set()
+        for lf in self.leaves:
+            for i, n in enumerate(self.state_atoms):
+                if lf.doms.get(n) != self.full[n]:
+                    rel.add(i)
+            if lf.kind == 'return':
+                for a_ in value_atoms(lf.ret):
+                    if a_ in self.state_atoms:
+                        rel.add(self.state_atoms.index(a_))
+        changed = True
+        while changed:
+            changed = False
+            for lf in self.leaves:
+                if lf.kind != 'return':
+                    continue
+                post = flat_scalars(lf.cells[('H', 'self')])
+                if len(post) != nall:
+                    raise Undecided('decoder state changes shape')
+                for i in list(rel):
+                    for a_ in value_atoms(post[i]):
+                        if a_ in self.state_atoms and self.state_atoms.index(a_) not in rel:
+                            rel.add(self.state_atoms.index(a_))
+                            changed = True
+        self.nall = nall
+        self.keep = sorted(rel)
+        self.observer_fields = [self.state_atoms[i] for i in range(nall) if i not in rel]
+        self.state_atoms = [self.state_atoms[i] for i in self.keep]
+        self.state_tks = [self.state_tks[i] for i in self.keep]
+        for n in self.state_atoms + ['code']:
+            if self.full.get(n) is None:
+                raise Undecided('decoder state field %s has an unbounded domain' % n)
         self.cells = {}     # cache (state, byte) -> (res, post, leaf index)
         # index leaves by byte for fast lookup
         self._by_byte = {}
@@ -349,7 +382,14 @@ class ScanTable:
             for c in lf.doms['code']:
                 self._by_byte.setdefault(c, []).append(li)
 
+    def proj(self, s):
+        """A state given over all scalar fields -> the relevant ones."""
+        if s is not None and len(s) == self.nall and self.nall != len(self.keep):
+            return tuple(s[i] for i in self.keep)
+        return s
+
     def cell(self, s, c):
+        s = self.proj(s)
         key = (s, c)
         r = self.cells.get(key)
         if r is not None:
@@ -382,7 +422,8 @@ class ScanTable:
                 else:
                     kev = o[2][0]
                     res = ('ev', kev[2][0], kev[2][1])
-            post = tuple(ev(x, asg) if x[0] != 'c' else x[1] for x in flat_scalars(lf.cells[('H', 'self')]))
+            pf = flat_scalars(lf.cells[('H', 'self')])
+            post = tuple(ev(pf[i], asg) if pf[i][0] != 'c' else pf[i][1] for i in self.keep)
         out = (res, post, hit)
         self.cells[key] = out
         return out
@@ -404,6 +445,7 @@ class ScanTable:
     def reachable(self, init):
         """States reachable from `init` over the extracted transition relation (never continuing
         through a panicking cell)."""
+        init = self.proj(init)
         seen = {init}
         work = [init]
         while work:
@@ -515,6 +557,147 @@ def place_field_chain(pl, body, prog):
                 chain.append((ty['path'], e['i']))
             ty = e['ty']
     return chain, ty
+
+
+def _rv_places(rv):
+    """places read by an rvalue (shallow JSON walk)"""
+    out = []
+
+    def op(o):
+        if isinstance(o, dict) and o.get('k') in ('copy', 'move') and 'pl' in o:
+            out.append(o['pl'])
+    k = rv.get('k')
+    if k in ('use', 'cast', 'repeat'):
+        op(rv.get('op'))
+    elif k == 'un':
+        op(rv.get('a'))
+    elif k == 'bin':
+        op(rv.get('a')); op(rv.get('b'))
+    elif k == 'agg':
+        for o in rv.get('ops', []):
+            op(o)
+    elif k in ('ref', 'rawptr', 'discr'):
+        out.append(rv['pl'])
+    elif k == 'other':
+        out.append(None)      # unknown rvalue: be conservative
+    return out
+
+
+PURE_ARITH = ('wrapping_add', 'wrapping_sub', 'wrapping_mul', 'saturating_add', 'saturating_sub', 'wrapping_neg', 'min', 'max')
+
+
+def observer_fields(ctx, adt_path, api_names):
+    """Scalar fields of a state struct that only OBSERVE (a frame counter, ...): flow-insensitive taint analysis over the
+    MIR of every hand-written function.  A field is an observer iff every value read from it flows only (a) through plain
+    arithmetic / wrapping-saturating helpers, (b) back into the same field, or (c) into the return value of a public
+    function that is not one of the operations the properties speak about (a getter).  Anything else - a branch, an
+    assertion, another field, another call, a reference to the field - makes it part of the state.  -> set of field indices"""
+    prog = ctx.prog
+    a = prog.adts.get(adt_path)
+    if a is None or a['kind'] != 'struct':
+        return set()
+    cand = {i for i, fl in enumerate(a['variants'][0]['fields']) if prog.tk(fl['ty']) in INT_TYPES_}
+    if not cand:
+        return set()
+    relevant = set()
+    # a derived comparison / hash of the struct reads every field: if hand-written code uses one, nothing is a mere observer
+    cmp_fns = {f['path'] for f in ctx.facts['fns'] if f.get('derived') and (f.get('impl_self') or {}).get('path') == adt_path
+               and (f.get('impl_trait') or '').split('::')[-1] not in ('Clone', 'Debug', 'Default', 'Copy')}
+    if cmp_fns:
+        for f in ctx.facts['fns']:
+            if f.get('derived'):
+                continue
+            for body in iter_bodies(f):
+                for bb in body['blocks']:
+                    t = bb['term']
+                    if t['k'] == 'call' and (((t['fn'].get('fn') or {}).get('resolved') or {}).get('path') in cmp_fns):
+                        return set()
+
+    def through(pl, body):
+        """field indices of adt_path this place goes through (directly on the ADT)"""
+        chain, _ty = place_field_chain(pl, body, prog)
+        return [fi for ap, fi in chain if ap == adt_path]
+
+    def whole(pl, body):
+        chain, ty = place_field_chain(pl, body, prog)
+        return ty.get('k') == 'adt' and ty.get('path') == adt_path
+
+    for f in ctx.facts['fns']:
+        if f.get('derived'):
+            continue
+        is_fmt = (f.get('impl_trait') or '').startswith('core::fmt::')
+        getter_ok = f['vis'] == 'pub' and not f.get('impl_trait') and f['name'] not in api_names and not f.get('closure_of')
+        for body in iter_bodies(f):
+            for fi in sorted(cand - relevant):
+                taint = set()
+                bad = False
+                changed = True
+                while changed and not bad:
+                    changed = False
+                    for bb in body['blocks']:
+                        for st_ in bb['stmts']:
+                            if st_['k'] != 'assign':
+                                continue
+                            rv, dest = st_['rv'], st_['pl']
+                            srcs = _rv_places(rv)
+                            reads = False
+                            for pl in srcs:
+                                if pl is None:
+                                    continue
+                                if (fi in through(pl, body)) or (not pl['p'] and pl['l'] in taint):
+                                    reads = True
+                                elif pl['p'] and pl['l'] in taint:
+                                    reads = True
+                            if rv['k'] in ('ref', 'rawptr') and fi in through(rv['pl'], body):
+                                bad = True              # a reference to the field escapes the analysis
+                            if not reads:
+                                continue
+                            if rv['k'] == 'discr':
+                                bad = True
+                            dthru = through(dest, body)
+                            if not dest['p']:
+                                if dest['l'] == 0 and not (getter_ok or is_fmt):
+                                    bad = True          # returned by an operation the properties describe
+                                if dest['l'] not in taint:
+                                    taint.add(dest['l']); changed = True
+                            elif dthru == [fi] or (dthru and dthru[-1] == fi):
+                                pass                    # written back into the same field
+                            elif dest['l'] in taint or (dest['l'] == 0 and (getter_ok or is_fmt)):
+                                pass                    # part of an already tainted temporary (e.g. the pair of a checked op)
+                            else:
+                                bad = True              # flows into other memory
+                        t = bb['term']
+                        k = t['k']
+                        ops = []
+                        if k == 'switch':
+                            ops = [t['op']]
+                        elif k == 'assert':
+                            ops = [t['cond']]
+                        elif k == 'call':
+                            ops = list(t['args'])
+                        used = False
+                        for o in ops:
+                            if isinstance(o, dict) and o.get('k') in ('copy', 'move') and 'pl' in o:
+                                pl = o['pl']
+                                if fi in through(pl, body) or pl['l'] in taint:
+                                    used = True
+                        if not used:
+                            continue
+                        if k in ('switch', 'assert'):
+                            bad = True
+                        elif k == 'call':
+                            fnr = t['fn'].get('fn') or {}
+                            nm = (fnr.get('path') or '').split('::')[-1]
+                            pure = (fnr.get('path') or '').startswith('core::num::') and nm in PURE_ARITH
+                            if not pure or t['dest']['p']:
+                                bad = True
+                            elif t['dest']['l'] not in taint:
+                                if t['dest']['l'] == 0 and not (getter_ok or is_fmt):
+                                    bad = True
+                                taint.add(t['dest']['l']); changed = True
+                if bad:
+                    relevant.add(fi)
+    return cand - relevant
 
 
 def writers_of(ctx, adt_path):
